@@ -30,6 +30,7 @@ import DiskfsModel.Proofs.Ext4XattrSpec
 import DiskfsModel.Proofs.Ext4FeatureGate
 import DiskfsModel.Proofs.Ext4HtreeSpec
 import DiskfsModel.Proofs.Ext4CsumMirror
+import DiskfsModel.Proofs.Ext4InodeFrame
 namespace Diskfs.Ext4.Reader.C20
 
 /-- Flattening (extentBlockFinder.blocks: concatenate the leaves, children in order, interior
@@ -1000,5 +1001,59 @@ theorem csum_dir_block_eq (f : Fs) (d : Inode) (blk : Bytes) (h12 : 12 ≤ f.bs)
       u8 blk (f.bs - 12 + 7) = 0xde) :
     dirTailOk f d blk = some (goDirCsumOk f.seed d.num d.gen f.bs blk) :=
   dir_csum_eq f d blk h12 ht
+
+/-! ### the inode codec for all fields, and the frame of the attribute setters on everything that is decoded -/
+
+/-- round trip for ALL fields of the 160 fixed bytes of an inode: the record that holds the numbers `g` at the
+    offsets of the format (mode; uid, gid, size, i_blocks, xattr block and version as low / high halves; links,
+    flags, generation, dtime, i_extra_isize, project id; the four timestamps as 32 low bits plus the extra word
+    with two epoch bits and 30 bits of nanoseconds; the 60 bytes of i_block), with ANY values in the words the
+    decoder does not interpret (checksum halves, obsolete fragment address, reserved) and ANY bytes behind
+    (in-inode attributes), decodes through the mirror of inodeFromBytes to exactly `g` — as found and, where
+    i_extra_isize covers the timestamp words, repaired -/
+theorem inode_codec_roundtrip_all_fields (guarded : Bool) (g : GoInode) (cl ch ob rs : Nat) (tail : Bytes)
+    (h : FullWF g) (hx : guarded = false ∨ 0x98 ≤ 128 + g.extra) :
+    goDecode guarded true (160 + tail.length) (encFull g cl ch ob rs tail) = g :=
+  full_roundtrip guarded g cl ch ob rs tail h hx
+
+/-- frame, decoded level: records of equal length (≥ 256) that agree on the bytes of `keep` decode to the same
+    value of every field whose bytes lie in `keep` (field by field: Proofs/Ext4InodeFrame.lean goDecode_frame);
+    for Chmod on the record: nothing inodeFromBytes decodes changes but the mode word -/
+theorem chmod_changes_only_mode (guarded huge : Bool) (isz : Nat) (b : Bytes) (perm : Nat) (h256 : 256 ≤ b.length) :
+    let d := goDecode guarded huge isz b
+    let d' := goDecode guarded huge isz (chmodBytes b perm)
+    d'.uid = d.uid ∧ d'.gid = d.gid ∧ d'.size = d.size ∧ d'.links = d.links ∧ d'.flags = d.flags ∧
+    d'.fsBlocks = d.fsBlocks ∧ d'.blocks = d.blocks ∧ d'.gen = d.gen ∧ d'.fileAcl = d.fileAcl ∧
+    d'.version = d.version ∧ d'.extra = d.extra ∧ d'.dtime = d.dtime ∧ d'.project = d.project ∧
+    d'.atime = d.atime ∧ d'.ctime = d.ctime ∧ d'.mtime = d.mtime ∧ d'.crtime = d.crtime ∧ d'.iblock = d.iblock :=
+  chmod_frame_decoded guarded huge isz b perm h256
+
+/-- Chown: only the owner and the group -/
+theorem chown_changes_only_ids (guarded huge : Bool) (isz : Nat) (b : Bytes) (uid gid : Option Nat)
+    (h256 : 256 ≤ b.length) :
+    let d := goDecode guarded huge isz b
+    let d' := goDecode guarded huge isz (chownBytes b uid gid)
+    d'.mode = d.mode ∧ d'.size = d.size ∧ d'.links = d.links ∧ d'.flags = d.flags ∧
+    d'.fsBlocks = d.fsBlocks ∧ d'.blocks = d.blocks ∧ d'.gen = d.gen ∧ d'.fileAcl = d.fileAcl ∧
+    d'.version = d.version ∧ d'.extra = d.extra ∧ d'.dtime = d.dtime ∧ d'.project = d.project ∧
+    d'.atime = d.atime ∧ d'.ctime = d.ctime ∧ d'.mtime = d.mtime ∧ d'.crtime = d.crtime ∧ d'.iblock = d.iblock :=
+  chown_frame_decoded guarded huge isz b uid gid h256
+
+/-- Chtimes: only the access, modification and creation times (the change time and everything else stay) -/
+theorem chtimes_changes_only_times (guarded huge : Bool) (isz : Nat) (b : Bytes) (cr at' mt : Ts)
+    (h256 : 256 ≤ b.length) :
+    let d := goDecode guarded huge isz b
+    let d' := goDecode guarded huge isz (chtimesBytes b cr at' mt)
+    d'.mode = d.mode ∧ d'.uid = d.uid ∧ d'.gid = d.gid ∧ d'.size = d.size ∧ d'.links = d.links ∧ d'.flags = d.flags ∧
+    d'.fsBlocks = d.fsBlocks ∧ d'.blocks = d.blocks ∧ d'.gen = d.gen ∧ d'.fileAcl = d.fileAcl ∧
+    d'.version = d.version ∧ d'.extra = d.extra ∧ d'.dtime = d.dtime ∧ d'.project = d.project ∧
+    d'.ctime = d.ctime ∧ d'.iblock = d.iblock :=
+  chtimes_frame_decoded guarded huge isz b cr at' mt h256
+
+/-! non-vacuity: an inode with ids above 16 bits, a size above 32 bits, times before 1970 and after 2038 -/
+example : FullWF ⟨0x81a4, 70000, 100000, 5000000000, 2, 0x80000, 8, false, 7, 0, 1, 32, 0, 0,
+    ⟨-5, 1⟩, ⟨4294967300, 999999999⟩, ⟨0, 0⟩, ⟨1700000000, 5⟩, zeros 60⟩ := by
+  refine ⟨by decide, by decide, by decide, by decide, by decide, by decide, by decide, by decide, by decide,
+    by decide, by decide, by decide, by decide, ?_, ?_, ?_, ?_, by decide, by decide⟩ <;> simp [TsWF]
 
 end Diskfs.Ext4.Reader.C20
